@@ -857,6 +857,15 @@ def r142(ctx, repo, sites):
                     isinstance(o, (ast.In, ast.NotIn)) and is_name(c, "self")
                     for o, c in zip(n.ops, n.comparators)):
                 touch.append(n)
+            elif isinstance(n, ast.Call) and (
+                    (call_name(n) == "len" and len(n.args) == 1
+                     and is_name(n.args[0], "self"))
+                    or (is_self_attr(n.func) and n.func.attr in (
+                        "_get_length", "__len__", "__iter__",
+                        "__contains__", "__getitem__"))):
+                # len(self) falls back to the basin features when the
+                # event count is not in the metadata
+                touch.append(n)
         ctx.ob("R14.2", not touch,
                f"{nm}.__init__ does not evaluate features or basins"
                if not touch else
@@ -2179,6 +2188,15 @@ MUTANTS = [
       "        return basins\n"), "R14.2"),
     ("HDF5 definitions without key", H5BASE,
      ('            bdict["key"] = bk\n', ""), "R14.2"),
+    ("RTDC_HDF5.__init__ fills the event count from len(self) "
+     "(seeded C14_16)", H5BASE,
+     ('        self.title = "{} - M{}".format(',
+      '        if "event count" not in self.config["experiment"]:\n'
+      '            try:\n'
+      '                self.config["experiment"]["event count"] = len(self)\n'
+      '            except ValueError:\n'
+      '                self._length = None\n'
+      '        self.title = "{} - M{}".format('), "R14.2"),
     ("RTDC_HDF5.__init__ evaluates features", H5BASE,
      ('        self.title = "{} - M{}".format(',
       '        if "trace" in self and not len(self["trace"]):\n'
